@@ -89,7 +89,7 @@ def clenshaw_rules(run, db):
         g_tgt, g_idx, g_val, g_node, _ = stores[0]
         n = Rat(R.atom('n'))
         from .common import degree_local
-        M = dom.rat(fr.env[degree_local(f)])
+        M = dom.rat(fr.env[degree_local(getattr(fr, 'fi', None) or f)])
         run.check(g_idx is not None and g_idx == n, 'C10.clenshaw', f.qual, 'step index', 'the step stores alphas[n]', 'the recurrence step stores index %s' % (g_idx.key() if g_idx is not None else '?'), f.loc(g_node))
 
         def A(k):
@@ -242,7 +242,7 @@ def basis_rules(run, db):
         run.check(s_idx is not None and s_idx == n and s_val is not None and s_val == want, 'C10.basis', f.qual, 'step', text,
                   '%s: the sweep stores index %s = %s, expected %s' % (f.name, s_idx.key() if s_idx is not None else '?', s_val.key() if s_val is not None else '?', want.key()), f.loc(s_node))
         from .common import degree_local
-        M = dom.rat(fr.env[degree_local(f)])
+        M = dom.rat(fr.env[degree_local(getattr(fr, 'fi', None) or f)])
         known = {}
         npre = 0
         for t_, idx, val, nd, conds in pre:
@@ -742,17 +742,47 @@ def _counter_rules_structural(run, db):
 def pack_rules(run, db):
     f = db.func(Q + 'Q2d_nm_c_to_a_b')
     # the output lists cover m = 1 .. max KEY of both dictionaries
-    # roles from the interface: the second and third returned lists are filled, per azimuthal order, from the cosine / sine dictionaries
-    from ..core.pattern import match_all, find
-    rb = match_all(f.node, ['return V_c, V_a, V_b'])
-    if rb is None:
-        raise AnalysisError('Q2d_nm_c_to_a_b: does not return (cms, a lists, b lists)')
-    rng = [n for n in walk_no_nested(f.node) if isinstance(n, ast.For) and isinstance(n.iter, ast.Call) and ast.unparse(n.iter.func) == 'range'
-           and isinstance(n.target, ast.Name) and find(n, '%s.append(V_d[%s])' % (rb['V_a'], n.target.id)) and find(n, '%s.append(V_d[%s])' % (rb['V_b'], n.target.id))]
-    if len(rng) != 1:
-        raise AnalysisError('Q2d_nm_c_to_a_b: packing loop not found')
-    DA = find(rng[0], '%s.append(V_d[%s])' % (rb['V_a'], rng[0].target.id))[0][0]['V_d']
-    DB = find(rng[0], '%s.append(V_d[%s])' % (rb['V_b'], rng[0].target.id))[0][0]['V_d']
+    # the packing walk is whatever consumes range(1, <bound> + 1) -- a for loop or comprehensions, directly or through a local bound
+    # to the range -- and looks its variable up in the cosine / sine dictionaries (D[m] or D.get(m, ...))
+    rcalls = [n for n in walk_no_nested(f.node) if isinstance(n, ast.Call) and ast.unparse(n.func) == 'range' and len(n.args) == 2]
+    aliases = {}
+    for n in walk_no_nested(f.node):
+        if isinstance(n, ast.Assign) and isinstance(n.targets[0], ast.Name) and n.value in rcalls:
+            aliases[n.targets[0].id] = n.value
+    walks = []          # (range call, loop variable, [nodes in which the variable is used])
+    for n in ast.walk(f.node):
+        gens = []
+        if isinstance(n, ast.For):
+            gens = [(n.iter, n.target, n.body)]
+        elif isinstance(n, (ast.ListComp, ast.GeneratorExp, ast.SetComp, ast.DictComp)):
+            gens = [(g.iter, g.target, [n]) for g in n.generators]
+        for it_, tg, body in gens:
+            rc = it_ if it_ in rcalls else aliases.get(it_.id) if isinstance(it_, ast.Name) else None
+            if rc is not None and isinstance(tg, ast.Name):
+                walks.append((rc, tg.id, body))
+    dicts, used_rc = [], []
+    for rc, var, body in walks:
+        for b_ in body:
+            for x_ in ast.walk(b_):
+                d_ = None
+                if isinstance(x_, ast.Subscript) and isinstance(x_.value, ast.Name) and isinstance(x_.slice, ast.Name) and x_.slice.id == var:
+                    d_ = x_.value.id
+                if isinstance(x_, ast.Call) and isinstance(x_.func, ast.Attribute) and x_.func.attr == 'get' and isinstance(x_.func.value, ast.Name) and x_.args \
+                        and isinstance(x_.args[0], ast.Name) and x_.args[0].id == var:
+                    d_ = x_.func.value.id
+                if d_ is not None:
+                    if d_ not in dicts:
+                        dicts.append(d_)
+                    if rc not in used_rc:
+                        used_rc.append(rc)
+    if len(dicts) != 2 or len(used_rc) != 1:
+        raise AnalysisError('Q2d_nm_c_to_a_b: the walk over the azimuthal orders (range(1, bound + 1) looked up in the cosine and sine dictionaries) was not found: dictionaries %s' % dicts)
+    DA, DB = dicts
+
+    class _R:
+        pass
+    rng = [_R()]
+    rng[0].iter = used_rc[0]
     hi = ast.unparse(rng[0].iter.args[-1]).replace(' ', '')
     lo = ast.unparse(rng[0].iter.args[0]).replace(' ', '') if len(rng[0].iter.args) > 1 else '0'
     bound = hi[:-2] if hi.endswith('+1') else None
